@@ -97,6 +97,7 @@ func c14UserPanic(res *Result) {
 func suiteC14(cfg Config, res *Result) {
 	defer c14PrefilledBuffer(res)
 	defer c14OptionsAfterCompile(res)
+	defer c14Repeated(res)
 	defer c14StaticLooking(res)
 	defer c14Shared(res)
 	defer c14UserPanic(res)
